@@ -22,6 +22,7 @@ type defects struct {
 	cacheNotValidated bool // the container's element-wrapper cache is looked up by index only, never re-validated against the current element location
 	noRepoint         bool // when a wrapper is re-pointed (copy-on-change, sort swap, re-allocation) the wrappers it handed out itself stay behind
 	mapFieldLive      bool // a wrapper of a map held in an addressable field/element views the field, not the map
+	ptrAllocOnFail    bool // a failed conversion into a nil pointer destination leaves a freshly allocated zero value behind
 }
 
 func (d defects) String() string {
@@ -35,20 +36,35 @@ func (d defects) String() string {
 	if d.mapFieldLive {
 		s = append(s, "map-wrapper-follows-field")
 	}
+	if d.ptrAllocOnFail {
+		s = append(s, "failed-set-allocates-nil-pointer")
+	}
 	return strings.Join(s, "+")
 }
 
-var defectVariants = []defects{
-	{cacheNotValidated: true},
-	{cacheNotValidated: true, noRepoint: true},
-	{mapFieldLive: true},
-	{cacheNotValidated: true, mapFieldLive: true},
-	{cacheNotValidated: true, noRepoint: true, mapFieldLive: true},
-}
+// defectVariants: all combinations, smallest first (noRepoint is only observable together with cacheNotValidated).
+var defectVariants = func() []defects {
+	var res []defects
+	for n := 1; n <= 4; n++ {
+		for bits := 1; bits < 16; bits++ {
+			d := defects{bits&1 != 0, bits&2 != 0, bits&4 != 0, bits&8 != 0}
+			c := 0
+			for b := bits; b != 0; b &= b - 1 {
+				c++
+			}
+			if c != n || d.noRepoint && !d.cacheNotValidated {
+				continue
+			}
+			res = append(res, d)
+		}
+	}
+	return res
+}()
 
 // compiled is one runtime prepared for a wrapper kind.
 type compiled struct {
 	rt     *goja.Runtime
+	wk     *wkind
 	fns    []goja.Callable
 	ff     goja.Callable // full observation F of w, h[0], h[1]
 	fd     goja.Callable // plain dumps D only
@@ -75,29 +91,30 @@ func newRuntime(mapper int) *goja.Runtime {
 }
 
 func compileKind(wk *wkind) *compiled {
-	c := &compiled{rt: newRuntime(wk.mapper)}
-	for _, o := range wk.ops {
-		if o.goFn != nil {
-			c.fns = append(c.fns, nil)
-			continue
-		}
-		v, err := c.rt.RunString(opJSSource(o))
-		if err != nil {
-			panic(fmt.Sprintf("compile %s: %v", o.name, err))
-		}
-		fn, _ := goja.AssertFunction(v)
-		c.fns = append(c.fns, fn)
-	}
-	ff, _ := goja.AssertFunction(c.rt.Get("FF"))
-	c.ff = ff
+	c := &compiled{rt: newRuntime(wk.mapper), wk: wk}
+	c.fns = make([]goja.Callable, len(wk.ops)) // compiled lazily
+	c.ff, _ = goja.AssertFunction(c.rt.Get("FF"))
 	c.fd, _ = goja.AssertFunction(c.rt.Get("FD"))
-	c.probes = c.rt.ToValue(wk.probes)
 	ps := make([]interface{}, len(wk.probes))
 	for i, p := range wk.probes {
 		ps[i] = p
 	}
 	c.probes = c.rt.NewArray(ps...)
 	return c
+}
+
+func (c *compiled) fn(i int) goja.Callable {
+	if f := c.fns[i]; f != nil {
+		return f
+	}
+	o := c.wk.ops[i]
+	v, err := c.rt.RunString(opJSSource(o))
+	if err != nil {
+		panic(fmt.Sprintf("compile %s: %v", o.name, err))
+	}
+	f, _ := goja.AssertFunction(v)
+	c.fns[i] = f
+	return f
 }
 
 // failure of one history.
@@ -172,6 +189,185 @@ func runModelOp(m *model, o *op) (res string, skipped bool, why string) {
 	return m.dumpVal(v, 0), false, ""
 }
 
+// cyclicExport reports whether the Go value behind a wrapper contains a cycle (through pointers, maps, slices).
+func cyclicExport(v goja.Value) (cyc bool) {
+	defer func() {
+		if recover() != nil {
+			cyc = true
+		}
+	}()
+	if _, ok := v.(*goja.Object); !ok {
+		return false
+	}
+	return goCyclic(reflect.ValueOf(v.Export()))
+}
+
+// cycleThroughArray reports a cycle in the Go value that passes through a slice or array. Array.prototype
+// methods (join, and with it every ToPrimitive / error message of such a wrapper) recurse without bound on
+// it in goja (listed finding, fatal), so such states are not explored.
+func cycleThroughArray(v reflect.Value) bool {
+	type ent struct {
+		k   reflect.Kind
+		p   uintptr
+		n   int
+		arr bool
+	}
+	var stack []ent
+	var walk func(v reflect.Value, d int) bool
+	walk = func(v reflect.Value, d int) bool {
+		if !v.IsValid() {
+			return false
+		}
+		if d > 48 {
+			return true
+		}
+		var e ent
+		switch v.Kind() {
+		case reflect.Interface:
+			if v.IsNil() {
+				return false
+			}
+			return walk(v.Elem(), d)
+		case reflect.Ptr:
+			if v.IsNil() {
+				return false
+			}
+			e = ent{reflect.Ptr, v.Pointer(), 0, false}
+		case reflect.Map:
+			if v.IsNil() {
+				return false
+			}
+			e = ent{reflect.Map, v.Pointer(), 0, false}
+		case reflect.Slice:
+			if v.Len() == 0 {
+				return false
+			}
+			e = ent{reflect.Slice, v.Pointer(), 0, true}
+		case reflect.Array, reflect.Struct:
+		default:
+			return false
+		}
+		if e.k != 0 {
+			for i, x := range stack {
+				if x.k == e.k && x.p == e.p {
+					if e.arr {
+						return true
+					}
+					for _, y := range stack[i:] {
+						if y.arr {
+							return true
+						}
+					}
+					return false // a cycle without arrays: stop descending
+				}
+			}
+			stack = append(stack, e)
+			defer func() { stack = stack[:len(stack)-1] }()
+		}
+		switch v.Kind() {
+		case reflect.Ptr:
+			return walk(v.Elem(), d+1)
+		case reflect.Map:
+			it := v.MapRange()
+			for it.Next() {
+				if walk(it.Value(), d+1) {
+					return true
+				}
+			}
+		case reflect.Slice, reflect.Array:
+			for i := 0; i < v.Len(); i++ {
+				if walk(v.Index(i), d+1) {
+					return true
+				}
+			}
+		case reflect.Struct:
+			for i := 0; i < v.NumField(); i++ {
+				if walk(v.Field(i), d+1) {
+					return true
+				}
+			}
+		}
+		return false
+	}
+	return walk(v, 0)
+}
+
+func goCyclic(v reflect.Value) bool {
+	type key struct {
+		k reflect.Kind
+		p uintptr
+		n int
+	}
+	on := map[key]bool{}
+	var walk func(v reflect.Value, d int) bool
+	walk = func(v reflect.Value, d int) bool {
+		if !v.IsValid() {
+			return false
+		}
+		if d > 64 {
+			return true
+		}
+		var k key
+		switch v.Kind() {
+		case reflect.Interface:
+			if v.IsNil() {
+				return false
+			}
+			return walk(v.Elem(), d)
+		case reflect.Ptr:
+			if v.IsNil() {
+				return false
+			}
+			k = key{reflect.Ptr, v.Pointer(), 0}
+		case reflect.Map:
+			if v.IsNil() {
+				return false
+			}
+			k = key{reflect.Map, v.Pointer(), 0}
+		case reflect.Slice:
+			if v.Len() == 0 {
+				return false
+			}
+			k = key{reflect.Slice, v.Pointer(), v.Len()}
+		case reflect.Array, reflect.Struct:
+		default:
+			return false
+		}
+		if k.k != 0 {
+			if on[k] {
+				return true
+			}
+			on[k] = true
+			defer delete(on, k)
+		}
+		switch v.Kind() {
+		case reflect.Ptr:
+			return walk(v.Elem(), d+1)
+		case reflect.Map:
+			it := v.MapRange()
+			for it.Next() {
+				if walk(it.Value(), d+1) {
+					return true
+				}
+			}
+		case reflect.Slice, reflect.Array:
+			for i := 0; i < v.Len(); i++ {
+				if walk(v.Index(i), d+1) {
+					return true
+				}
+			}
+		case reflect.Struct:
+			for i := 0; i < v.NumField(); i++ {
+				if walk(v.Field(i), d+1) {
+					return true
+				}
+			}
+		}
+		return false
+	}
+	return walk(v, 0)
+}
+
 func capOfExport(v goja.Value) (c int) {
 	c = -1
 	defer func() { recover() }()
@@ -244,7 +440,7 @@ func runHistory(c *compiled, wk *wkind, path []int, df defects, full bool) (out 
 				tv = m.h[o.tgt]
 			}
 			cls := classNameOf(tv)
-			got, pan := callImpl(c.fns[oi], w, h)
+			got, pan := callImpl(c.fn(oi), w, h)
 			if pan != "" {
 				out.fail = &failure{Kind: "panic", OpKind: o.kind, Step: i, Panic: pan, Class: cls}
 				return
@@ -262,6 +458,10 @@ func runHistory(c *compiled, wk *wkind, path []int, df defects, full bool) (out 
 				return
 			}
 			out.lastRes = want
+			if cycleThroughArray(implHost) || cycleThroughArray(twinHost) || m.handleCycle() {
+				out.skipped, out.skipWhy = true, "cyclic value through a slice"
+				return
+			}
 			if got != want {
 				out.fail = &failure{Kind: "result", OpKind: o.kind, Step: i, Got: got, Want: want, Class: cls}
 				return
@@ -272,8 +472,19 @@ func runHistory(c *compiled, wk *wkind, path []int, df defects, full bool) (out 
 			return
 		}
 	}
+	// the state key is taken before the final observation, which is not part of any continued history
+	// (reading through the wrappers registers element references, in the model as in the implementation)
+	key := m.stateKey(twinHost)
 	// end of history: everything script can see, and Export identity
 	var want string
+	// JSON.stringify of a cyclic Go value recurses without bound in goja (listed finding, fatal): it is
+	// left out of the observation whenever the value reachable from the wrapper is cyclic.
+	var nj [3]bool
+	if full {
+		nj[0] = cyclicExport(w)
+		nj[1] = cyclicExport(h.Get("0"))
+		nj[2] = cyclicExport(h.Get("1"))
+	}
 	skipped, why := false, ""
 	func() {
 		defer func() {
@@ -286,7 +497,7 @@ func runHistory(c *compiled, wk *wkind, path []int, df defects, full bool) (out 
 			}
 		}()
 		if full {
-			want = m.full(m.rootVal(), wk.probes) + "##" + m.full(m.h[0], wk.probes) + "##" + m.full(m.h[1], wk.probes)
+			want = m.full(m.rootVal(), wk.probes, nj[0]) + "##" + m.full(m.h[0], wk.probes, nj[1]) + "##" + m.full(m.h[1], wk.probes, nj[2])
 		} else {
 			want = m.dumpVal(m.rootVal(), 0) + "##" + m.dumpVal(m.h[0], 0) + "##" + m.dumpVal(m.h[1], 0)
 		}
@@ -303,7 +514,7 @@ func runHistory(c *compiled, wk *wkind, path []int, df defects, full bool) (out 
 	if full {
 		obs = c.ff
 	}
-	got, pan := callImpl(obs, w, h, c.probes)
+	got, pan := callImpl(obs, w, h, c.probes, c.rt.ToValue([]interface{}{nj[0], nj[1], nj[2]}))
 	if pan != "" {
 		out.fail = &failure{Kind: "panic", OpKind: "observe-after-" + lastKind, Step: len(path), Panic: pan}
 		return
@@ -335,8 +546,20 @@ func runHistory(c *compiled, wk *wkind, path []int, df defects, full bool) (out 
 			}
 		}
 	}
-	out.key = m.stateKey(twinHost)
+	out.key = key
 	return
+}
+
+func (m *model) handleCycle() bool {
+	if m.root != nil && cycleThroughArray(m.root.loc) {
+		return true
+	}
+	for _, h := range m.h {
+		if h.k == mRef && cycleThroughArray(h.ref.loc) {
+			return true
+		}
+	}
+	return false
 }
 
 // HistCase is the replayable form of one history.
@@ -539,20 +762,23 @@ func expandLevel(r *core.Run, st *bfsState, workers []*workerCtx) bool {
 	return true
 }
 
-// reportHistory re-runs a failing history 5 times on fresh state, classifies it and records it.
+var reportedSigs sync.Map
+
+// reportHistory classifies a failing history and records it; the first case of every signature is re-run
+// 5 times on fresh runtimes before it is reported.
 func reportHistory(r *core.Run, wc *workerCtx, wk *wkind, path []int, f *failure) {
-	for i := 0; i < 5; i++ {
-		c := compileKind(wk)
-		o := runHistory(c, wk, path, defects{}, true)
-		if o.fail == nil || o.fail.Kind != f.Kind {
-			r.Violation("nondeterministic|"+wk.name, fmt.Sprintf("history %v failed once (%s) but not on a re-run", pathNames(wk, path), f.Kind),
-				HistCase{Part: "hist", Kind: wk.name, Path: pathNames(wk, path), Failure: f})
-			return
+	hc := HistCase{Part: "hist", Kind: wk.name, Path: pathNames(wk, path), Failure: f}
+	sig, what := classify(wc.get(wk), wk, path, f)
+	if _, seen := reportedSigs.LoadOrStore(sig, true); !seen {
+		for i := 0; i < 5; i++ {
+			o := runHistory(compileKind(wk), wk, path, defects{}, true)
+			if o.fail == nil || o.fail.Kind != f.Kind {
+				r.Violation("nondeterministic|"+wk.name, fmt.Sprintf("history %v failed once (%s) but not on a re-run", pathNames(wk, path), f.Kind), hc)
+				return
+			}
 		}
 	}
-	c := compileKind(wk)
-	sig, what := classify(c, wk, path, f)
-	r.Violation(sig, what, HistCase{Part: "hist", Kind: wk.name, Path: pathNames(wk, path), Failure: f})
+	r.Violation(sig, what, hc)
 }
 
 func runHistories(r *core.Run, kinds []*wkind) {
